@@ -193,8 +193,13 @@ namespace sim
 			, out_request.data(), out_request.size());
 		m_num_server_out_bytes += int(out_request.size());
 
+		// requests pipelined while the origin is still being resolved or
+		// connected just stay queued; they are written once connected
+		if (m_connecting) return;
+
 		if (!m_server_connection.is_open())
 		{
+			m_connecting = true;
 			boost::system::error_code err;
 			tcp::endpoint target(make_address(host.c_str(), err)
 				, static_cast<unsigned short>(port));
@@ -230,6 +235,7 @@ namespace sim
 			{
 				std::printf("http_proxy::on_request_domain_lookup: empty response\n");
 			}
+			m_connecting = false;
 			error(503, "Resource Temporarily Unavailable");
 			return;
 		}
@@ -259,6 +265,8 @@ namespace sim
 	{
 		// the connection this operation belonged to has been torn down already
 		if (ec == asio::error::operation_aborted) return;
+
+		m_connecting = false;
 
 		if (ec)
 		{
@@ -357,6 +365,7 @@ namespace sim
 		m_num_client_in_bytes = 0;
 		m_num_server_out_bytes = 0;
 		m_num_in_bytes = 0;
+		m_connecting = false;
 
 		error_code err;
 		m_client_connection.close(err);
